@@ -111,6 +111,7 @@ def parseKind : String → Option Kind
   -- values are parametric in the model: a falsy result / a falsy exception object (`__bool__` False)
   -- is just a result / an exception of that class
   | "fval" => some .val | "fexc" => some .exc | "fbase" => some .baseExc
+  | "xval" => some .val | "cval" => some .val     -- an exception instance / a CancelledError instance *returned* as the value
   | _ => none
 
 def field (toks : List String) (key : String) : Option String :=
